@@ -106,7 +106,17 @@ class Canon:
         if k == "bin":
             return ("bin", t[1], self.norm(t[2]), self.norm(t[3]))
         if k == "phi":
-            return ("phi", self.norm(t[1]), self.norm(t[2]), self.norm(t[3]))
+            c, a, b = self.norm(t[1]), self.norm(t[2]), self.norm(t[3])
+            # canonical orientation: positive condition first
+            while True:
+                if c[0] == "not":
+                    c, a, b = c[1], b, a
+                elif c[0] == "cmp" and c[1] in ("notin", "!=", "isnot"):
+                    c = ("cmp", {"notin": "in", "!=": "==", "isnot": "is"}[c[1]], c[2], c[3])
+                    a, b = b, a
+                else:
+                    break
+            return ("phi", c, a, b)
         if k == "cases":
             return ("cases", tuple((tuple(self.norm(c) for c in pc), self.norm(x))
                                    for pc, x in t[1]))
@@ -303,23 +313,53 @@ class Canon:
         if k == "kwget":
             return f"{s(t[1])}.get({t[2]!r}, {s(t[3])})"
         if k == "dictobj":
+            # one rendering for a mapping whatever way it is written: constant items, then each
+            # dynamic store with the loops and conditions it sits under (relative to the creation
+            # of the dict) - the same text a dict comprehension gets
             h = self.ip.heap.get(t[1], {})
-            items = [f"{kk!r}: {s(self.norm(v))}" for kk, v in h.get("items", {}).items()]
-            for d in h.get("dyn", []):
-                if isinstance(d[0], tuple) and isinstance(d[1], tuple) and d[0][0] != "unknown":
-                    items.append(f"{s(self.norm(d[0]))}: {s(self.norm(d[1]))}")
-                else:
-                    items.append("...")
+            busy = self.__dict__.setdefault("_showing", set())
+            if t[1] in busy:          # a condition / element that mentions the container itself
+                return "{@self}"
+            busy.add(t[1])
+            try:
+                items = [f"{kk!r}: {s(self.norm(v))}" for kk, v in h.get("items", {}).items()]
+                for d in h.get("dyn", []):
+                    if isinstance(d[0], tuple) and isinstance(d[1], tuple) \
+                            and d[0][0] != "unknown":
+                        items.append(f"{s(self.norm(d[0]))}: {s(self.norm(d[1]))}"
+                                     + self._gens_rel(d[2], h.get("pc0", ()), ln))
+                    else:
+                        items.append("...")
+            finally:
+                busy.discard(t[1])
             return "{" + ", ".join(items) + "}"
         if k == "listobj":
             h = self.ip.heap.get(t[1], {})
-            return "[" + ", ".join(s(self.norm(v)) for v in h.get("elts", [])) + \
-                (", ..." if h.get("dyn") else "") + "]"
+            busy = self.__dict__.setdefault("_showing", set())
+            if t[1] in busy:
+                return "[@self]"
+            busy.add(t[1])
+            try:
+                items = [s(self.norm(v)) for v in h.get("elts", [])]
+                for d in h.get("dyn", []):
+                    if d[0] in ("append", "extend") and len(d[1]) == 1:
+                        star = "*" if d[0] == "extend" else ""
+                        items.append(star + s(self.norm(d[1][0]))
+                                     + self._gens_rel(d[2], h.get("pc0", ()), ln))
+                    else:
+                        items.append("...")
+            finally:
+                busy.discard(t[1])
+            return "[" + ", ".join(items) + "]"
         if k == "comp":
-            gens = " ".join(
-                f"for each({s(it)}){self._lsuffix(lid, ln)}"
+            gens = "".join(
+                f" for each({s(it)}){self._lsuffix(lid, ln)}"
                 + "".join(f" if {s(c)}" for c in conds) for lid, it, conds in t[3])
-            return f"<{t[1]}comp {', '.join(s(x) for x in t[2])} {gens}>"
+            if t[1] == "dict":
+                return "{" + f"{s(t[2][0])}: {s(t[2][1])}{gens}" + "}"
+            if t[1] == "list":
+                return "[" + f"{s(t[2][0])}{gens}" + "]"
+            return f"<{t[1]}comp {', '.join(s(x) for x in t[2])}{gens}>"
         if k == "istype":
             return f"type({s(t[1])}) is {t[2]}"
         if k == "undef":
@@ -392,6 +432,18 @@ class Canon:
                 return self._readthrough(("row", v[1][1], v[2]), fam)
         return v
 
+    def _gens_rel(self, pc, pc0, ln):
+        """` for each(IT) if C ...` of a path condition relative to the point pc0"""
+        rel = pc[len(pc0):] if tuple(pc[:len(pc0)]) == tuple(pc0) else \
+            tuple(c for c in pc if c not in pc0)
+        out = ""
+        for c in rel:
+            if c[0] == "inloop":
+                out += f" for each({self._loop_iter(c[1], ln)}){self._lsuffix(c[1], ln)}"
+            elif c[0] != "fact":
+                out += f" if {self._show(self.norm(c), ln)}"
+        return out
+
     def _loop_iter(self, lid, ln):
         info = self.ip.loops.get(lid)
         if info is None or info.get("iter") is None:
@@ -439,6 +491,47 @@ class Canon:
                 pass
         return t
 
+    def _len_cmp(self, op, a, b, ln):
+        """len(x) compared with an integer literal: len is a non-negative integer, so every such
+        comparison has the normal form  k < len(x)  (or its negation):
+        `len(x) == 0`, `len(x) < 1`, `not len(x) > 0`, `len(x) <= 0` are one atom"""
+        def is_len(t):
+            return t[0] == "call" and t[1] == "builtins.len" and len(t[2]) == 1
+
+        def is_int(t):
+            return t[0] == "const" and isinstance(t[1], int) and not isinstance(t[1], bool)
+        if is_len(b) and is_int(a):
+            flip = {"<": ">", ">": "<", "<=": ">=", ">=": "<=", "==": "==", "!=": "!="}
+            if op not in flip:
+                return None
+            op, a, b = flip[op], b, a
+        if not (is_len(a) and is_int(b)) or op not in ("<", ">", "<=", ">=", "==", "!="):
+            return None
+        c = b[1]
+        sl = self._show(a, ln)
+
+        def gt(k):           # k < len
+            if k < 0:
+                return ("true",)
+            return _atom(f"{k}<{sl}", "<", str(k), sl)
+        if op == ">":
+            return gt(c)
+        if op == ">=":
+            return gt(c - 1)
+        if op == "<":
+            return f_not(gt(c - 1))
+        if op == "<=":
+            return f_not(gt(c))
+        if op in ("==", "!="):
+            if c < 0:
+                r = ("false",)
+            elif c == 0:
+                r = f_not(gt(0))
+            else:
+                return None
+            return r if op == "==" else f_not(r)
+        return None
+
     def _conj_exists(self, items, ln):
         """conjunction of a return-site path condition; the part inside a loop is
         existentially quantified over the iterations"""
@@ -482,15 +575,17 @@ class Canon:
                 return ("false",)
             return ("exists", self._loop_iter(t[1], ln) + self._lsuffix(t[1], ln), body)
         if k == "call" and t[1] in ("builtins.all", "builtins.any") and len(t[2]) == 1 \
-                and t[2][0][0] == "comp" and len(t[2][0][3]) == 1:
+                and t[2][0][0] == "comp" and len(t[2][0][3]) >= 1:
             comp = t[2][0]
-            lid, it, conds = comp[3][0]
-            binder = self._show(it, ln) + self._lsuffix(lid, ln)
-            cf = [self._f(c, ln) for c in conds]
             ef = self._f(comp[2][0], ln)
-            if t[1].endswith("any"):
-                return ("exists", binder, f_and(cf + [ef]))
-            return f_not(("exists", binder, f_and(cf + [f_not(ef)])))
+            is_any = t[1].endswith("any")
+            body = ef if is_any else f_not(ef)
+            # innermost generator first: nested existentials, each with its own conditions
+            for lid, it, conds in reversed(comp[3]):
+                binder = self._show(it, ln) + self._lsuffix(lid, ln)
+                cf = [self._f(c, ln) for c in conds]
+                body = ("exists", binder, f_and(cf + [body]))
+            return body if is_any else f_not(body)
         if k == "cmp":
             op, a, b = t[1], t[2], t[3]
             # a comparison of a conditional value is the conditional of the comparisons
@@ -503,6 +598,9 @@ class Canon:
                     t2[side] = x[3]
                     return f_or([f_and([c, self._f(self._fold_cmp(tuple(t1)), ln)]),
                                  f_and([f_not(c), self._f(self._fold_cmp(tuple(t2)), ln)])])
+            lc = self._len_cmp(op, a, b, ln)
+            if lc is not None:
+                return lc
             sa, sb = self._show(a, ln), self._show(b, ln)
             if op == "==":
                 x, y = sorted([sa, sb])
